@@ -151,7 +151,7 @@ fn main() {
     let prop = Property {
         id: "C11",
         level: "exploration",
-        rule: "random interleavings of add / publish / remove / read with advancing virtual time (objects added at arbitrary packet indices while others are in flight or while a multi-packet FDT is mid-transmission, double publishes, publishes without change, carousel objects, removals), both publish modes, 1-4 queues, multiplex 0-4, interleave 1-5, both polling disciplines; the stream is judged online by a trace automaton (Announced set fed by completely emitted instances decoded independently; pending = partly emitted instance; explicit publishes must be followed by a complete instance before object packets continue); a case is one script, non-trivial when object packets were observed; distinct = discretised script shape",
+        rule: "random interleavings of add / publish / remove / read with advancing virtual time (objects added at arbitrary packet indices while others are in flight or while a multi-packet FDT is mid-transmission, double publishes, publishes without change, carousel objects, removals), both publish modes, 1-4 queues, multiplex 0-4, interleave 1-5, both polling disciplines; the stream is judged online by a trace automaton (Announced set fed by completely emitted instances decoded independently; pending = partly emitted instance; explicit publishes must be followed by a complete instance before object packets continue); a case is one script, non-trivial when object packets were observed; distinct = discretised script shape; failed_publish also under a Raptor session OTI with source blocks of at most 4-6 symbols (instances partitioned into blocks of 4 and 3 symbols are refused, never truncated)",
         assumptions: vec![
             "repeated transfers of an announced object need no fresh FDT; the close-object packet after removal belongs to an announced TOI".into(),
             "the session's default OTI can carry the FDT (publish() errors are the caller's information)".into(),
